@@ -146,6 +146,12 @@ def render_all(txns, w, views=False):
                            ('transfersIn', 'transfers_in'), ('transfersOut', 'transfers_out')):
                 if data.get(jk) != figures[sk]:
                     O.fail('C12.html.figure.%s' % sk, w, figures[sk], data.get(jk))
+            # the per-category breakdown by kind adds up to the headline figures (each transaction in the bucket the analysis put it in)
+            tt = {k: sum(c.get('typeTotals', {}).get(k, 0) for c in data['categoryView'].values()) for k in ('spending', 'income', 'investment', 'transfer')}
+            want_tt = {'spending': figures['spending_total'], 'income': figures['income_total'], 'investment': stats.get('investment_total', 0),
+                       'transfer': figures['transfers_in'] + figures['transfers_out']}
+            if any(abs(tt[k] - want_tt[k]) > 0.005 for k in tt):
+                O.fail('C12.html.type_totals_differ_from_figures', w, want_tt, tt, 'sum of categoryView[*].typeTotals vs the analysed figures')
             merchants, txn_seen, cat_total = {}, [], 0.0
             for cat in data['categoryView'].values():
                 cat_total += cat['total']
@@ -204,6 +210,8 @@ def main():
             tx += [T(n, 'Odd', 'Names', 10.0 + i, 4, 1 + i) for i, n in enumerate(w['names'])]
         if 'description' in w:
             tx.append(T('Hostile', 'Odd', 'Text', 7.0, 4, 9, desc=w['description'], tags=w.get('tags', [])))
+        if w.get('case') == 'two_special_tags':
+            tx += [T('Fidelity', 'Save', 'IRA', 200.0, 4, 2, ['investment', 'transfer']), T('Fidelity', 'Save', 'IRA', -75.0, 4, 3, ['transfer', 'Investment']), T('Acme', 'Pay', 'Bonus', -50.0, 4, 4, ['transfer', 'income'])]
         if w.get('case') == 'extra_field_values':
             tx.append(T('Dated', 'Odd', 'Fields', 9.0, 4, 9, extra=eval(w['extra'], {'datetime': __import__('datetime')})))
         render_all(tx, w, views=w.get('views', False))
@@ -214,6 +222,9 @@ def main():
     render_all(zero, {'case': 'zero_cash_flow'})
     render_all(zero, {'case': 'zero_cash_flow', 'views': True}, views=True)
     render_all([T('Only', 'C', 'S', 12.5, 1, 1)], {'case': 'single'})
+    # transactions carrying two special tags at once: every place that buckets them uses the same precedence (income, investment, transfer)
+    render_all(base_txns() + [T('Fidelity', 'Save', 'IRA', 200.0, 4, 2, ['investment', 'transfer']), T('Fidelity', 'Save', 'IRA', -75.0, 4, 3, ['transfer', 'Investment']),
+                              T('Acme', 'Pay', 'Bonus', -50.0, 4, 4, ['transfer', 'income'])], {'case': 'two_special_tags'})
     render_all([T('Refund', 'C', 'S', -12.5, 1, 1)], {'case': 'only_credit'})
     for d in HOSTILE:
         render_all(base_txns() + [T('Hostile', 'Odd', 'Text', 7.0, 4, 9, desc=d, tags=[d])], {'description': d, 'tags': [d]})
